@@ -137,11 +137,20 @@ class SimParallel:
     2*n_jobs, worker isolation by pickling (n_jobs>1), completion order chosen by the simulator,
     results returned in submission order, exceptions surfacing when the failing task completes."""
 
-    def __init__(self, sim, n_jobs=None, **_kw):
+    def __init__(self, sim, n_jobs=None, return_as="list", **_kw):
         self.sim = sim
         self.n_jobs = n_jobs
+        self.return_as = return_as
 
     def __call__(self, iterable):
+        order, results = self._execute(iterable)
+        if self.return_as == "generator_unordered":
+            return (results[i] for i in order)          # completion order, as joblib does
+        if self.return_as == "generator":
+            return (results[i] for i in range(len(order)))
+        return [results[i] for i in range(len(order))]
+
+    def _execute(self, iterable):
         sim = self.sim
         n_jobs = self.n_jobs
         if n_jobs is None or n_jobs == 0:
@@ -156,7 +165,7 @@ class SimParallel:
                 idx = sim.on_dispatch(k, func, args, kwargs)
                 results[k] = sim.on_complete(idx, k, sim.run_task(idx, func, args, kwargs))
                 k += 1
-            return [results[i] for i in range(k)]
+            return list(range(k)), results
         window = 2 * n_jobs
         inflight = []
         k = 0
@@ -176,6 +185,7 @@ class SimParallel:
                 k += 1
 
         refill()
+        order = []
         while inflight:
             j = sim.rng.randrange(min(n_jobs, len(inflight)))
             if j:
@@ -186,5 +196,6 @@ class SimParallel:
             res = sim.run_task(idx, func, args, kwargs)
             res = pickle.loads(pickle.dumps(res))
             results[kk] = sim.on_complete(idx, kk, res)
+            order.append(kk)
             refill()
-        return [results[i] for i in range(k)]
+        return order, results
